@@ -6,7 +6,10 @@ from lib import Case
 
 PROP = "C14"
 DRIVER = "drv-c14"
-PROOF_MODULES = ["TetlProofs.C14.Props"]
+GEN_PROOF_MODULES = ["TetlProofs.C14.GenBits", "TetlProofs.C14.GenMid", "TetlProofs.C14.GenArith", "TetlProofs.C14.GenCmpEq",
+                     "TetlProofs.C14.GenCmpLt", "TetlProofs.C14.GenCmpD1", "TetlProofs.C14.GenCmpD2", "TetlProofs.C14.GenRange",
+                     "TetlProofs.C14.GenSat", "TetlProofs.C14.GenProps"]
+PROOF_MODULES = ["TetlProofs.C14.Props"] + GEN_PROOF_MODULES
 HARNESS = "harness/c14.cpp"
 SOURCES = ["include/etl/_bit", "include/etl/_numeric/add_sat.hpp", "include/etl/_numeric/div_sat.hpp",
            "include/etl/_numeric/saturate_cast.hpp", "include/etl/_numeric/midpoint.hpp",
@@ -43,7 +46,20 @@ ASSUMPTIONS = ["libstdc++ 12 <bit>/<numeric>/<utility> and exact __int128 arithm
                "as its index 0..len",
                "ilog2 of x <= 0 has no independent reference (no std counterpart, no logarithm): the reference column "
                "restates the documented value 0, so R2 is vacuous there while R1/R3 (code = model = theorem value) are not"]
-TRUSTED = ["hand model Tetl/C14/Model.lean tied to the source by the correspondence run (R1) on every run",
+TRUSTED = ["hand model Tetl/C14/Model.lean tied to the source by the correspondence run (R1) on every run; its straight-line "
+           "kernels additionally by translation (gen/translate.py job set BITS_JOBS -> Tetl/C14/Gen.lean on every run; "
+           "TetlProofs/C14/Gen*.lean: generated = hand model and generated UB obligation = true on the documented domain, for all "
+           "values): bit_width, bit_floor, bit_ceil (both branches), has_single_bit, rotl, rotr, test/set/reset/flip_bit, "
+           "set_bit(word, pos, value), byteswap_fallback (u8..u64 resp. u16..u64), midpoint<Int>, add_sat, div_sat, abs<T> "
+           "(u8..u64, i8..i64), the six cmp_*, in_range, saturate_cast (all 64 ordered pairs of those eight types)",
+           "loops stay hand-modelled and tie H only: countl_zero, popcount / popcount_fallback (the generated bit_width / "
+           "has_single_bit call the hand model's through Tetl/C14/GenExt.lean), countl_one, countr_zero, countr_one, gcd, lcm, "
+           "ipow, ilog2; also hand-modelled only: add_sat_fallback (etl::clamp with a comparator object), idiv, ipow<2>, "
+           "byteswap / ntoh / hton dispatch, midpoint(Ptr, Ptr), abs(int|long|long long) of _math/abs.hpp (C10 translates it), "
+           "and every function on ull / ll / the character types (same bodies, other type names)",
+           "gen/translate.py v3, clang-16's AST (-Wno-c++11-narrowing: clang rejects the `UInt{x - 1U}` of bit_ceil for "
+           "8/16-bit types, g++ only warns), Tetl/CSemBits.lean (C++20 shift / bit-operator semantics) and "
+           "__builtin_add_overflow modelled as documented in the GCC manual (CSemBits.addOverflowVal / addOverflowFlag)",
            "spec Tetl/C14/Spec.lean validated against libstdc++/__int128 (R2) on every run"]
 SEARCH_CAP = 400000
 
@@ -434,7 +450,9 @@ def run(ctx, replay=None):
 
 CLAIMED = True
 TECHNIQUE = ("Lean 4 proof: hand model (generic in the bit width, C++ promotions/conversions/UB explicit) = arithmetic spec "
-             "for all values; model tied to the code by exhaustive 8/16-bit + boundary/random 32/64-bit correspondence run")
+             "for all values; model tied to the code by exhaustive 8/16-bit + boundary/random 32/64-bit correspondence run, "
+             "and its straight-line kernels by translation from the clang AST (regenerated on every run) with Lean proofs "
+             "generated = hand model, no UB, for all values of u8..u64 / i8..i64")
 LEVEL_TEXT = ("every modelled function — popcount (fallback), countl_zero, countl_one, countr_zero, countr_one, bit_width, bit_floor, "
               "bit_ceil, has_single_bit, rotl, rotr, test_bit, set_bit (both overloads), reset_bit, flip_bit, byteswap and its "
               "16/32/64-bit fallbacks, ntoh, hton, add_sat (builtin and fallback path), div_sat, saturate_cast, midpoint, gcd, lcm, "
@@ -451,6 +469,12 @@ LEVEL_TEXT = ("every modelled function — popcount (fallback), countl_zero, cou
               "but under GCC/clang add_sat always takes the builtin path (the fallback is the `#else` branch, dead code "
               "here): the fallback is tied to the source only because the harness calls etl::detail::add_sat_fallback "
               "directly, and the dispatch of add_sat to it is never exercised in any run. "
+              "Tie T: the straight-line kernels (everything except the loops countl_zero, popcount, countl_one, countr_*, gcd, lcm, "
+              "ipow, ilog2 and the dead add_sat_fallback) are translated from the clang AST of the current headers on every run "
+              "for u8/u16/u32/u64 and i8/i16/i32/i64 (cmp_*, in_range, saturate_cast: all 64 ordered pairs) and proved, "
+              "symbolically for all values, equal to the hand model with every shift-count / signed-overflow / division "
+              "obligation of the translated body true on the documented domain; the driver also compares generated and hand "
+              "model on every case line. "
               "The model is tied "
               "to the current source on every run by running model and implementation (builtin and portable-fallback paths) on "
               "the same inputs under ASan/UBSan: all 8-bit values and pairs, all 16-bit values, boundary/random 32/64-bit "
@@ -458,7 +482,9 @@ LEVEL_TEXT = ("every modelled function — popcount (fallback), countl_zero, cou
               "(char, wchar_t, char8_t, char16_t, char32_t) for the `integral` functions, pointer pairs for midpoint; "
               "the spec is validated "
               "against libstdc++ and __int128 arithmetic on the same inputs.")
-LEVEL_NOTE = ("Trusted: Lean kernel + propext/Classical.choice/Quot.sound; the hand model's fidelity outside the explored inputs; "
+LEVEL_NOTE = ("Trusted: Lean kernel + propext/Classical.choice/Quot.sound; the hand model's fidelity outside the explored inputs "
+              "(for the translated kernels: gen/translate.py + clang-16 + CSemBits instead; the loops and the ull / ll / character "
+              "type instantiations remain tie H only); "
               "g++-12/ASan/UBSan; compiler builtins; libstdc++ as oracle for spec validation. coverage.correspondence_only is empty: "
               "every modelled function has a theorem. Not driven here: (1) failing preconditions — the harness is built "
               "without TETL_ENABLE_CONTRACT_CHECKS, so TETL_PRECONDITION(pos < static_cast<UInt>(digits)) of "
@@ -490,3 +516,39 @@ THEOREMS = {
     "byteswap": ["C14.Props.byteswap_eq"], "byteswap_fb": ["C14.Props.byteswapFallback_eq"],
     "ntoh": ["C14.Props.ntoh_eq"], "hton": ["C14.Props.hton_eq"], "ipow": ["C14.Props.ipow_eq"],
 }
+
+
+_T8 = ["u8", "u16", "u32", "u64", "i8", "i16", "i32", "i64"]
+_G = "C14.GenProps.gen_"
+for _op, _fs, _tys in (("bit_width", ["bit_width"], _T8[:4]), ("bit_floor", ["bit_floor"], _T8[:4]), ("bit_ceil", ["bit_ceil"], _T8[:4]),
+                       ("has_single_bit", ["has_single_bit"], _T8[:4]), ("rotl", ["rotl"], _T8[:4]), ("rotr", ["rotr"], _T8[:4]),
+                       ("test_bit", ["test_bit"], _T8[:4]), ("set_bit", ["set_bit"], _T8[:4]), ("reset_bit", ["reset_bit"], _T8[:4]),
+                       ("flip_bit", ["flip_bit"], _T8[:4]), ("set_bit_1", ["set_bit_to"], _T8[:4]), ("set_bit_0", ["set_bit_to"], _T8[:4]),
+                       ("byteswap_fb", ["byteswap_fallback"], _T8[1:4]), ("midpoint", ["midpoint"], _T8), ("add_sat", ["add_sat"], _T8),
+                       ("div_sat", ["div_sat"], _T8), ("abs", ["abs"], _T8)):
+    THEOREMS[_op] = THEOREMS[_op] + [_G + "%s_%s" % (_f, _t) for _f in _fs for _t in _tys]
+THEOREMS["cmp"] = THEOREMS["cmp"] + [_G + "%s_%s_%s" % (_f, _t, _u) for _f in ("cmp_equal", "cmp_not_equal", "cmp_less", "cmp_greater",
+                                     "cmp_less_equal", "cmp_greater_equal") for _t in _T8 for _u in _T8]
+THEOREMS["in_range"] = THEOREMS["in_range"] + [_G + "in_range_%s_%s" % (_t, _u) for _t in _T8 for _u in _T8]
+THEOREMS["saturate_cast"] = THEOREMS["saturate_cast"] + [_G + "saturate_cast_%s_%s" % (_t, _u) for _t in _T8 for _u in _T8]
+
+# ---- tie T for the straight-line kernels: regenerated from the clang AST on every run (gen/translate.py, job set
+# BITS_JOBS); TetlProofs/C14/Gen*.lean are re-checked against the regenerated Tetl/C14/Gen.lean, and the driver compares
+# the generated functions with the hand model on every case line (`!gen=`).
+def regenerate(ctx):
+    import os
+    import sys
+    import lib
+    sys.path.insert(0, os.path.join(lib.VERIF, "gen"))
+    import translate
+    out = os.path.join(lib.LEAN, "Tetl", "C14", "Gen.lean")
+    try:
+        info = translate.translate_bits(lib.REPO, out)
+    except translate.Unsupported as e:      # the translation unit itself is refused by clang
+        return {"generated_files": [os.path.relpath(out, lib.VERIF)], "hash": [], "changed": False, "functions": [],
+                "translator": translate.VERSION3, "error": str(e)}
+    res = {"generated_files": [os.path.relpath(out, lib.VERIF)], "hash": [lib.file_hash(out)], "changed": info["changed"],
+           "functions": info["functions"], "translator": info["translator"]}
+    if info["errors"]:
+        res["error"] = "; ".join(info["errors"])
+    return res
